@@ -638,6 +638,16 @@ class Ev:
                 kw = dict(a[3]) if len(a) > 3 else {}
                 start = kw.get("start", a[2][1] if len(a[2]) > 1 else P.const(0))
                 return P.atom(("tuple", (idx + start, Ev.elem_of(a[2][0], idx))))
+        if a and a[0] == "comp" and a[1] in ("ListComp", "GeneratorExp") and len(a) == 4 and len(a[3]) == 1 and a[3][0][0] == "range" and not a[3][0][2]:
+            # the idx-th element of [ELT(v) for v in range(lo, hi)] is ELT(lo + idx): iterating a comprehension is iterating its formula
+            ra = a[3][0][1].as_atom()
+            rargs = ra[2] if ra and ra[0] == "call" else ()
+            if len(rargs) in (1, 2):
+                lo = rargs[0] if len(rargs) == 2 else P.const(0)
+                lvs = [x for x in find_atoms(a[2], lambda x: x[0] == "lv" and isinstance(x[2], int) and x[2] >= 1000)]
+                if lvs:
+                    kmin = min(x[2] for x in lvs)
+                    return a[2].subs({x: lo + idx for x in lvs if x[2] == kmin})
         return P.atom(("sub", it, (idx,)))
 
     def _bind_loop(self, target, iter_node, it: P, k: int, st) -> LoopInfo:
